@@ -173,6 +173,7 @@ class World18:
         self.fail_sync = False  # the latest failed attempt never suspended
         self.fail_attempt = -1
         self.mdns_attempt = -1  # index of the latest attempt that a record batch triggered
+        self.stale_restart = False  # stop()+start() were called while a session-end notification was still queued
         # monitor state
         self.stopped = True  # never started == stopped
         self.stop_called = True
@@ -208,6 +209,8 @@ class World18:
     # ---- bookkeeping ----------------------------------------------------------------------------
     def bad(self, why: str, signature=None) -> None:
         msg = f"t={self.loop.time()}: {why}"
+        if signature is None and self.stale_restart:
+            signature = SIG_STALE
         if not track.fail(msg, signature):  # True: listed as an open known finding (suppressed)
             self.viol.append(msg)
 
@@ -378,6 +381,8 @@ class World18:
                 for z in self.all_zc():
                     z.deliver(BATCH[ev])
         elif ev == E_START:
+            if self.stop_called and self.ended > self.disconnects:
+                self.stale_restart = True
             self.epoch += 1
             self.stopped = False
             self.stop_called = False
@@ -485,6 +490,7 @@ class World18:
 
 
 RL_COOLDOWN = 5.0  # the statement's cool-down (not read from the code)
+SIG_STALE = "C18/stale-session-end-notification/stop-and-start-before-on-disconnect-task-ran"
 SIG_SYNC = "C18/mdns-ignored-while-waiting/after-record-triggered-attempt-failed-synchronously"
 
 
@@ -813,6 +819,7 @@ def shards(tier: str) -> list:
     scen("from 'connected'", [S, T, T], 3, k0s=(0,), split=True)
     # B. same-turn interleavings: events are injected without running the loop in between
     scen("events injected into the same loop turn unless time is advanced", [S], L, settle=0, split=sp)
+    scen("same-turn injection with zero-delay attempts, from connected / waiting", [S, T], 3, k0s=(0, 2), outc="0,2,5", d1=0, d2=0, settle=0, split=True)
     # C. attempts that complete without ever suspending
     scen("zero-delay attempts (start- and finish-phase failures coincide)", [S], 3, k0s=(0, 2, 5), outc="0,2,5", d1=0, d2=0, split=True)
     # D. slow connect: the retry timer of an earlier failure fires while a record-triggered attempt is connecting
